@@ -8,7 +8,8 @@ EPS = 2.0 ** -53
 TRACE_CAP = 520          # harness and driver print the full trace up to this many evaluations, else min/max
 RULE = ("one case = one call Integrate(f,a,b,eps,depth) (ops swap/epssign: two calls; op seq: two to eight calls of Integrate with explicit "
         "or default depth, of the \"Adaptive-Simpson\" string overload and of Find_Epsilon made in one process, some of them abandoned by "
-        "their integrand, with unrelated limits, the same limits, or limits that abut / share an end with those of the call before; op nest: one call whose integrand itself calls the integrator at every abscissa); non-trivial = the recursion "
+        "their integrand (calls of every kind, abandoned at any of their evaluations, followed by a request made in both orientations of its limits; "
+        "calls of the other methods of the string overload in between, for the history only), with unrelated limits, the same limits, or limits that abut / share an end with those of the call before; op nest: one call whose integrand itself calls the integrator at every abscissa); non-trivial = the recursion "
         "tree of at least one (outer) call has a split node (more than 5 integrand evaluations) or a leaf forced by the depth limit "
         "(non-convergence warning); distinct by case text")
 LEVEL_TEXT = ("Theorems (Coq, over the reals, for all inputs): exactness on every polynomial of degree <= 5 for every epsilon, depth and "
@@ -28,13 +29,33 @@ LEVEL_TEXT = ("Theorems (Coq, over the reals, for all inputs): exactness on ever
               "arithmetic), and the case of a raised warning (forced leaf), where no bound in epsilon is claimed. For doubles the Gallina "
               "model is the term that is extracted and run against the C++ code on every run (value, warning flag, evaluation count and the "
               "multiset of abscissae, bit for bit), and every clause is also evaluated on the implementation's output (S4) with a-priori "
-              "rounding slack.")
+              "rounding slack. "
+              "Theorems for EVERY arithmetic (model over an arbitrary number type and arbitrary operations, hence also for the extracted double "
+              "instance with rounding, infinities and NaN integrand values; coq/C03_Proofs_Arith.v): the evaluation count is at most 2^(depth+2)+1 "
+              "with no premise at all (C03_eval_count_any_arithmetic) and has the form 4L+1, 1 <= L <= 2^depth (C03_eval_count_shape; 4L+4 for the "
+              "string overload, C03_method_count_shape) - the check evaluates this shape on every count the library reports; swapping two limits "
+              "that are ordered one way negates the rounded value exactly - same bits, sign flipped - with the same warning and abscissae, given only "
+              "(-1)*r = -(1*r) and --r = r (C03_swap_negates_any_arithmetic); limits comparing equal give zero without an evaluation "
+              "(C03_equal_limits_any_arithmetic); the sign of epsilon is irrelevant given |-e| = |e| (C03_eps_sign_any_arithmetic); every abscissa "
+              "lies between the ordered limits in every transitive order in which the rounded midpoint of two ordered numbers stays between them "
+              "(C03_eval_points_inside_any_order; for doubles this premise holds when a+b does not overflow - it is a premise, not proved about "
+              "IEEE arithmetic); sequences in which calls are abandoned by their integrand are part of the extracted model (run_seq_ab) and every "
+              "request is answered as the call made alone or not at all (C03_history_free_with_abandoned_calls, C03_abandoned_calls_pointwise). "
+              "Over the reals in addition: the 4*epsilon bound for the string overload with the tolerance it chooses itself "
+              "(C03_method_error_bound) and at any position of a call sequence (C03_error_bound_after_any_history); and the refinement of Integrate to a "
+              "simple specification (C03_integrate_is_composite_rule): for distinct limits the value is +-1 times the sum, over the panels on which the "
+              "recursion stops, of the five-point value S2+(S2-S)/15, these panels abut, tile the ordered interval and are the interval halved "
+              "k <= depth times, and the integrand is evaluated four times per panel plus once. Still only tested, not "
+              "proved: how far the rounded value of a polynomial's integral is from the exact one (the 'to rounding' part), and that the laws "
+              "named as premises hold for the C++ double operations.")
 LEVEL_NOTE = ("Coq 8.16.1 kernel + Coquelicot; standard-library real-number axioms (listed in the evidence). Hand-written model tied by "
               "differential correspondence (extraction with ExtrOcamlBasic only). The order in which C++ evaluates the two recursive calls "
               "in `ASI(left) + ASI(right)` is unspecified: traces are compared as multisets. The error-bound theorem carries no analytic premise beyond differentiability: "
               "derivatives of orders 1..4 on an open interval containing the integration range and the factor-four bound on the fourth one.")
 TOL = (1e-11, 1e-300)
-TRUSTED = ["the integrand call-backs are prefix expressions evaluated by harness/common.hpp and ocaml/common.ml with the same libm",
+TRUSTED = ["calls of the other methods of the string overload (Trapezoidal, Gauss-Legendre, Gauss-Kronrod, Gauss-Legendre_2) are made between the "
+           "calls of a sequence for the history only; their answers are neither modelled nor compared (Tanh-Sinh is left out: boost aborts on intervals a few ulps wide)",
+           "the integrand call-backs are prefix expressions evaluated by harness/common.hpp and ocaml/common.ml with the same libm",
            "the non-convergence warning is observed as the text 'did not converge' on the library's stdout; for an integrand that calls the "
            "integrator itself the harness reads and then discards what the inner call printed, so that only the outer call's warning remains",
            "a nested request whose outer integrand is evaluated more than 256 times beyond the bound of the property is stopped by the harness "
@@ -313,6 +334,103 @@ DEFAULT_DEPTH = 20
 def py_find_epsilon(f, a, b, prec):
     c = (a + b) / 2; h = b - a; fa = f(a); fb = f(b); fc = f(c)
     return prec * ((h / 6) * (fa + 4 * fc + fb))
+
+
+OTHER_METHODS = ["Trapezoidal", "Gauss-Legendre", "Gauss-Kronrod", "Gauss-Legendre_2"]      # not "Tanh-Sinh": boost aborts the process on intervals a few ulps wide (outside this property)
+
+
+def call_count(kind, f, a, b, eps, depth, cap):
+    """number of integrand evaluations of the call (None: above cap / not computable); generator side only"""
+    if kind == "F": return 3
+    if a == b: return 0
+    if kind == "M":
+        e = py_find_epsilon(f, min(a, b), max(a, b), 1e-9)
+        if e != e: return None
+        n = simulate_count(f, a, b, e, DEFAULT_DEPTH, cap)
+        return None if n is None else n + 3
+    return simulate_count(f, a, b, eps, DEFAULT_DEPTH if kind == "D" else depth, cap)
+
+
+def abandon_point(rng, n):
+    """the evaluation at which the integrand abandons a call of n evaluations: the first values (a, b, midpoint; for the string overload
+    those of its Find_Epsilon and of the integration proper), the first panels, somewhere in the tree, the very last evaluation"""
+    k = rng.choice([1, 2, 3, 4, 5, 6, 7, 8, 9, n, n, n - 1, rng.randint(1, max(n, 1)), rng.randint(1, max(n, 1))])
+    return min(max(k, 1), max(n, 1))
+
+
+def call_text(kind, la, lb, et, depth, fm, pr, fxx, kx=0, method=None):
+    """text of one call of a sequence; kx > 0: abandoned by its integrand at the kx-th evaluation"""
+    x = "X" if kx else ""; k = f" {kx}" if kx else ""
+    if kind == "I": head = f"{x or 'I'} {hx(la)} {hx(lb)} {et} {depth}{k}"
+    elif kind == "D": head = f"{x}D {hx(la)} {hx(lb)} {et}{k}"
+    elif kind == "M": head = f"{x}M {hx(la)} {hx(lb)}{k}"
+    elif kind == "F": head = f"{x}F {hx(la)} {hx(lb)} {et}{k}"
+    else: head = f"{x}O {hx(la)} {hx(lb)} {method}{k}"
+    return head + " " + fam_text(fm, pr, fxx)
+
+
+def gen_abandoned(rng, dmax, cap):
+    """A call of any kind (Integrate with explicit / default depth, the string overload with "Adaptive-Simpson" or another method,
+    Find_Epsilon) that its integrand abandons by an exception at any of its evaluations, or that completes, directly followed by a
+    request made in both orientations of its limits (descending first, mostly) - on the limits of the first call, on abutting limits
+    or on unrelated ones - with the same or another integrand; then sometimes the whole again.  Every answer must be the answer of the call made
+    alone (model), the two orientations must negate each other exactly, and the value clauses are evaluated on each."""
+    r = rng.random()
+    base = None
+    while base is None:
+        base = (gen_quintic(rng, dmax) if r < 0.25 else gen_qshift(rng, dmax, far=rng.random() < 0.3) if r < 0.45
+                else gen_regular(rng, dmax, far=rng.random() < 0.15) if r < 0.85 else gen_any(rng, dmax, kinds=SMOOTH_KINDS))
+    a, b, eps0, depth0, fam, params, fx = base
+    lo, hi = min(a, b), max(a, b); w = hi - lo
+    f0, _ = parse_fexpr(fx.split(), 0)
+    funs = [(fam, params, fx)]
+    cs = [rng.uniform(-3, 3) for _ in range(rng.randint(1, 6))]; cs += [0.0] * (6 - len(cs))
+    if fam not in REGULAR: funs.append(("qshift", [lo] + cs, horner(cs, f"- x {C(lo)}")))
+    else: funs.append(variant_fun(rng, fam, params))
+    text = []; kinds = ""
+    for rep in range(rng.choice([1, 1, 2])):
+        # the first call
+        k1 = rng.choice(["M", "M", "M", "I", "D", "F", "O"])
+        fm, pr, fxx = rng.choice(funs)
+        f, _ = parse_fexpr(fxx.split(), 0)
+        la, lb = rng.choice([(lo, hi), (lo, hi), (hi, lo)])
+        sc = fun_scale(f, lo, hi)
+        eps = eps0 if rng.random() < 0.4 else rand_eps(rng, sc)
+        depth = rng.choice([depth0, 2, 4, 6, dmax])
+        method = rng.choice(OTHER_METHODS)
+        if k1 == "O":
+            kx = rng.choice([0, 0, 1, 2, 3, 4, 5, 8, 16, rng.randint(1, 40)])
+            text.append(call_text("O", la, lb, None, 0, fm, pr, fxx, kx, method)); kinds += "O"
+        else:
+            n = call_count(k1, f, la, lb, eps, depth, cap)
+            if n is None: k1 = "I"; depth = min(depth, 6); n = call_count("I", f, la, lb, eps, depth, cap)
+            if k1 == "D" and rng.random() < 0.85: eps = abs(eps)
+            kx = abandon_point(rng, n) if (n and rng.random() < 0.85) else 0
+            et = hx(10 ** rng.uniform(-12, -1)) if k1 == "F" else hx(eps)
+            text.append(call_text(k1, la, lb, et, depth, fm, pr, fxx, kx)); kinds += ("X" if kx else "") + k1
+        # the request that follows, in both orientations
+        q = rng.random()
+        if q < 0.6: ra, rb = lo, hi
+        elif q < 0.75: ra, rb = hi, hi + min(max(w * 10 ** rng.uniform(-1, 1), 1e-6), 1e3)
+        elif q < 0.85 and (lo + hi) / 2 not in (lo, hi): ra, rb = lo, (lo + hi) / 2
+        else: ra, rb = rand_interval(rng)
+        if not (ra < rb) or not (rb - ra <= 1e3): ra, rb = lo, hi
+        pool = funs if (lo <= ra and rb <= hi) else [g for g in funs if g[0] not in REGULAR] or [("qshift", [lo] + cs, horner(cs, f"- x {C(lo)}"))]
+        fm, pr, fxx = rng.choice(pool)
+        f, _ = parse_fexpr(fxx.split(), 0)
+        sc = fun_scale(f, ra, rb)
+        if sc is not None and rng.random() < 0.7: eps = sc * 10 ** rng.uniform(-12, -3) * rng.choice([1, 1, -1])
+        else: eps = rand_eps(rng, sc)
+        eps = math.copysign(min(max(abs(eps), 1e-18), 1e2), eps)
+        depth = rng.choice([depth0, 0, 1, 2, 3, 6, dmax])
+        k2 = rng.choice(["I", "I", "I", "D", "D", "M"])
+        if k2 != "I" and call_count(k2, f, ra, rb, eps, depth, cap) is None: k2 = "I"
+        if k2 == "D" and rng.random() < 0.85: eps = abs(eps)      # (a lost fabs makes every such call a full tree of depth 20: keep those few)
+        order = [(rb, ra), (ra, rb)] if rng.random() < 0.8 else [(ra, rb), (rb, ra)]
+        if rng.random() < 0.15: order = order[:1]
+        for (xa, xb) in order:
+            text.append(call_text(k2, xa, xb, hx(eps), depth, fm, pr, fxx)); kinds += k2
+    return Case(f"seq {len(text)} " + " ".join(text), ("seq", "abandon", "seq:" + kinds[:3]))
 
 
 def gen_seq(rng, dmax, cap):
@@ -731,6 +849,9 @@ def generate(rng, tier):
     # several calls in one process
     for k in range(8000 if big else 500):
         cs.append(gen_seq(rng, dmax, 20000 if big else 3000))
+    # a call of any kind abandoned by its integrand (or completed), then a request in both orientations of its limits
+    for k in range(8000 if big else 600):
+        cs.append(gen_abandoned(rng, dmax, 20000 if big else 3000))
     # integrands that call the integrator themselves
     for k in range(4000 if big else 320):
         c = gen_nest(rng, 20000 if big else 6000)
@@ -805,20 +926,23 @@ def parse_case(line):
 
 
 def parse_seq(line):
-    """-> list of (kind, a, b, eps-or-'@'-or-precision, depth, fam, params, fexpr tokens)"""
+    """-> list of (kind, a, b, eps-or-'@'-or-precision-or-method, depth, fam, params, fexpr tokens); kind = I D M F O, or X<kind><k> for
+    the call that its integrand abandons at its k-th evaluation"""
     t = line.split(); n = int(t[1]); i = 2; out = []
     for _ in range(n):
         kind = t[i]; a = tokf(t[i + 1]); b = tokf(t[i + 2]); i += 3
         eps = None; depth = DEFAULT_DEPTH
-        kx = 0
-        if kind in ("I", "D", "X"):
+        kx = 0; ab = kind.startswith("X")
+        if ab: kind = kind[1:] or "I"
+        if kind in ("I", "D"):
             eps = "@" if t[i] == "@" else tokf(t[i]); i += 1
-        if kind in ("I", "X"): depth = int(t[i]); i += 1
-        if kind == "X": kx = int(t[i]); i += 1
+        if kind == "I": depth = int(t[i]); i += 1
         if kind == "F": eps = tokf(t[i]); i += 1
+        if kind == "O": eps = t[i]; i += 1
+        if ab: kx = int(t[i]); i += 1
         fam, params, i = parse_family(t, i)
         _, j = parse_fexpr(t, i)
-        out.append((kind if kind != "X" else "X%d" % kx, a, b, eps, depth, fam, params, t[i:j])); i = j
+        out.append((kind if not ab else "X%s%d" % (kind, kx), a, b, eps, depth, fam, params, t[i:j])); i = j
     return out
 
 
@@ -907,6 +1031,8 @@ def nest_predicates(c, io):
         if n != 0 or v != 0.0: out.append((tag + ":equal-limits", f"equal limits returned {v!r} after {n} evaluations, expected 0 without evaluations"))
         return out
     if n < 5: out.append((tag + ":count-min", f"only {n} evaluations for distinct limits"))
+    if n <= bound and (n - (3 if ok == "M" else 0)) % 4 != 1:
+        out.append((tag + ":count-shape", f"{n} evaluations of the integrand (which itself calls the integrator): not of the form 4 L + {4 if ok == 'M' else 1}"))
     pts = [tokf(x) for x in t[9:]]
     bad = [x for x in pts if not (lo <= x <= hi)]
     if bad: out.append((tag + ":location", f"integrand evaluated at {bad[0]!r} outside [{lo!r},{hi!r}]"))
@@ -1009,6 +1135,8 @@ def predicates(c, io):
         if a == b and (n != 0 or v != 0.0):
             out.append((op + ":equal-limits", f"equal limits returned {v!r} after {n} evaluations, expected 0 without evaluations"))
         if a != b and n < 5: out.append((op + ":count-min", f"only {n} evaluations for distinct limits"))
+        if a != b and n % 4 != 1:      # C03_eval_count_shape: 3 first values + 2 per node of a binary tree = 4 L + 1
+            out.append((op + ":count-shape", f"{n} integrand evaluations: not of the form 4 L + 1 (three first values and two per panel of a binary tree with L leaves)"))
         # location bound
         pts = [tokf(x) for x in tr]
         bad = [x for x in pts if not (lo <= x <= hi)]
@@ -1042,15 +1170,17 @@ def seq_predicates(c, io):
     for j, ((kind, a, b, eps, depth, fam, params, fx), (v, w, n, mm)) in enumerate(zip(reqs, res)):
         v = tokf(v); n = int(n); warn = w == "1"; pmin, pmax = tokf(mm[0]), tokf(mm[1])
         lo, hi = min(a, b), max(a, b)
-        kx = 0
-        if kind.startswith("X"): kx = int(kind[1:]); kind = "X"
+        kx = 0; base = kind
+        if kind.startswith("X"): kx = int(kind[2:]); base = kind[1]; kind = "X" + (base if base != "I" else "")
         tag = f"seq:{kind}"
         where = f"call {j + 1} ({kind}) of the sequence: "
+        if base == "O": continue      # another method of the string overload: history only
         if kx and n >= kx:        # abandoned by the integrand at its kx-th evaluation: nothing to evaluate but the count
-            if kx > 2 ** (max(depth, 0) + 2) + 1:
-                out.append((tag + ":count", where + f"the integrand was evaluated a {kx}-th time, the bound is {2 ** (max(depth, 0) + 2) + 1}"))
+            bound = {"I": 2 ** (max(depth, 0) + 2) + 1, "D": 2 ** (DEFAULT_DEPTH + 2) + 1, "M": 2 ** (DEFAULT_DEPTH + 2) + 4, "F": 3}[base]
+            if kx > bound:
+                out.append((tag + ":count", where + f"the integrand was evaluated a {kx}-th time, the bound is {bound}"))
             continue
-        if kx: kind = "I"
+        kind = base
         if n and not (lo <= pmin and pmax <= hi):
             out.append((tag + ":location", where + f"integrand evaluated in [{pmin!r},{pmax!r}], outside [{lo!r},{hi!r}]"))
         if kind == "F":
@@ -1066,18 +1196,20 @@ def seq_predicates(c, io):
             continue
         if n > bound: out.append((tag + ":count", where + f"{n} integrand evaluations exceed the bound {bound}"))
         if n < 5: out.append((tag + ":count-min", where + f"only {n} evaluations for distinct limits"))
+        if (n - extra) % 4 != 1:
+            out.append((tag + ":count-shape", where + f"{n} integrand evaluations: not of the form 4 L + {1 + extra}"))
         if kind == "M":
             f, _ = parse_fexpr(fx, 0); eps = py_find_epsilon(f, lo, hi, 1e-9)
         if eps == eps:
             for sig, msg in value_preds(tag, a, b, eps, dn, fam, params, v, warn, max((n - extra - 1) // 4, 1)):
                 out.append((sig, where + msg))
         # the same request made twice in one process must be answered identically; reversed limits negate
-        key = (kind, lo, hi, abs(eps) if eps == eps else "nan", dn, " ".join(fx))
+        key = ("I" if kind in "ID" else kind, lo, hi, abs(eps) if eps == eps else "nan", dn, " ".join(fx))
         if key in seen:
             (pa, pv, pw, pn) = seen[key]
             want = pv if pa == a else -pv
             if not ((v != v and want != want) or v == want) or pn != n or pw != warn:
-                out.append((tag + ":repeat", where + f"the same request was answered {pv!r} ({pn} evaluations) earlier in the process and {v!r} ({n} evaluations) now" + ("" if pa == a else " (limits reversed: expected the negative)")))
+                out.append((tag + (":repeat" if pa == a else ":swap-negates"), where + f"the same request was answered {pv!r} ({pn} evaluations) earlier in the process and {v!r} ({n} evaluations) now" + ("" if pa == a else " (limits reversed: expected the negative)")))
         else: seen[key] = (a, v, warn, n)
     return out
 
